@@ -261,6 +261,12 @@ def eager_contraction_generic_to_tuple(red_op, bin_op, reduced_vars, *terms):
 
 @eager.register(Contraction, AssociativeOp, AssociativeOp, frozenset, tuple)
 def eager_contraction_generic_recursive(red_op, bin_op, reduced_vars, terms):
+    if red_op is bin_op:
+        # Pushing reductions into single terms is only valid when red_op
+        # distributes over bin_op; sum-of-sums etc. are handled by normalize,
+        # which accounts for the multiplicity of terms lacking a reduced var.
+        return None
+
     # Count the number of terms in which each variable is reduced.
     counts = Counter()
     for term in terms:
